@@ -11,6 +11,30 @@ NUMERALS = ["0", "-0", "007", "00", "9223372036854775807", "9223372036854775808"
             "1e5.5", "--1", "-", "1-1", "1e5e5", "0.00000000000000000000000000000000000000000000001",
             "179769313486231570000000000000000000000000000000000000000000000000000000000000000000000000000000000000000000000000000000000000000000000000000000000000000000000000000000000000000000000000000000000000000000000000000000000000000000000000000000000000000000000000000000000000000000000000000000000000000000000000000.0"]
 
+
+
+def _sweeps():
+    """numerals by length: every count of decimal places / integer digits / exponent digits
+    around the sizes number parsers treat specially (tables of exact powers of ten, 53-bit
+    mantissas, 19-digit integers, exponent range)"""
+    out = []
+    for d in range(1, 46):
+        for mant in ("1", "9", "1234567", "9007199254740991", "9007199254740993"):
+            if len(mant) <= d:
+                out.append("0." + "0" * (d - len(mant)) + mant)
+        out.append("-0." + "0" * (d - 1) + "1")
+        out.append("1." + "0" * d)
+        out.append("1" + "0" * d + ".5")
+    for d in range(1, 26):
+        out.append("9" * d)
+        out.append("-" + "1" + "0" * (d - 1))
+    for e in list(range(300, 312)) + list(range(318, 330)) + [22, 23, 37, 38, 39, 44, 45, 46]:
+        out += ["1e%d" % e, "1e-%d" % e, "9.9e%d" % e, "-2.5e-%d" % e]
+    return out
+
+
+NUMERALS += _sweeps()
+
 STRINGS = [b'""', b'"\\a"', b'"\\b"', b'"\\f"', b'"\\n"', b'"\\r"', b'"\\t"', b'"\\v"', b'"\\\\"', b'"\\""',
            b'"\\101"', b'"\\x41"', b'"\\u00e9"', b'"\\U0001F600"', b'"\\1"', b'"\\12"', b'"\\x4"', b'"\\u00"',
            b'"\\U0001"', b'"\\q"', b'"\\"', b'"\xff"', b'"\\ud800"', b'"\\udc00\\ud800"', b'"\\U00110000"',
